@@ -31,6 +31,7 @@ func checkC14(r *Report, p *Program) {
 	parentSelectorTable(r, p, "R14.10")
 	discoveryDefaults(r, p, "R14.11")
 	tombstonesAreValues(r, p, "R14.12")
+	getObjectTable(r, p, "R14.13")
 	relatedNotifyTable(r, p, "R14.9")
 }
 
